@@ -277,7 +277,8 @@ OnWRet(m, e) ==
                        !.fcls = IF e.ok \/ final THEN @ ELSE @ \cup {IF e.cls = "sys" THEN "rec" ELSE "fatal"}]
   IN m2
 
-OnCnt(m, e) == IF e.c \in CounterNames THEN [m EXCEPT !.obs = Bump(@, e.c)] ELSE m
+\* a counter update adds e.v thousandths (1000 for the increment by one that every counted event is worth)
+OnCnt(m, e) == IF e.c \in CounterNames THEN [m EXCEPT !.obs = [@ EXCEPT ![e.c] = @ + e.v \div 1000 + (IF e.v % 1000 = 0 THEN 0 ELSE 1000000)]] ELSE m
 
 OnHook(m, e) ==      \* consistency-check path: the RA handed to the hook is a generated RA too (C04)
   LET wantT == FirstPend(m.pend, TRUE)
